@@ -334,16 +334,29 @@ def main(out_path):
     for t, f in zip(tests, want_f):
         if not re.fullmatch(r'(self|further_htlc_fields)\.%s\s*\S+\s*(self|further_htlc_fields)\.%s' % (f, f), t) or t.count('self.') != 1:
             raise TranslateError("check_merge: test on %s changed: %r" % (f, t))
-    rest_re = (r'let tlvs = &mut self\.custom_tlvs; let further_tlvs = &mut further_htlc_fields\.custom_tlvs; '
+    head_re = r'let tlvs = &mut self\.custom_tlvs; let further_tlvs = &mut further_htlc_fields\.custom_tlvs; '
+    tail_re = (r'tlvs\.retain\(\|tlv\| further_tlvs\.iter\(\)\.any\(\|further_tlv\| (.+?)\)\); '
+               r'further_tlvs\.retain\(\|further_tlv\| tlvs\.iter\(\)\.any\(\|tlv\| (.+?)\)\); Ok\(\(\)\)')
+    # shape A (the source): the two filtered even sub-sequences compared AS SEQUENCES with .ne / .eq
+    rest_re = (head_re +
                r'let even_tlvs = tlvs\.iter\(\)\.filter\(\|\((\w+), _\)\| (.+?)\); '
                r'let further_even_tlvs = further_tlvs\.iter\(\)\.filter\(\|\((\w+), _\)\| (.+?)\); '
-               r'if (even_tlvs|further_even_tlvs)\.(ne|eq)\((even_tlvs|further_even_tlvs)\) \{ return Err\(\(\)\);? \} '
-               r'tlvs\.retain\(\|tlv\| further_tlvs\.iter\(\)\.any\(\|further_tlv\| (.+?)\)\); '
-               r'further_tlvs\.retain\(\|further_tlv\| tlvs\.iter\(\)\.any\(\|tlv\| (.+?)\)\); Ok\(\(\)\)')
+               r'if (even_tlvs|further_even_tlvs)\.(ne|eq)\((even_tlvs|further_even_tlvs)\) \{ return Err\(\(\)\);? \} ' + tail_re)
+    # shape B (one-directional containment): `if even_tlvs.any(|tlv| !further_tlvs.contains(tlv))` - translated as it stands
+    # (Props/C04.lean merge_ok_implies_same_even_tlvs is not provable for it); every other shape is a TRANSLATE-ERROR
+    rest_re_b = (head_re +
+               r'let (?:mut )?even_tlvs = (tlvs|further_tlvs)\.iter\(\)\.filter\(\|\((\w+), _\)\| (.+?)\); '
+               r'if even_tlvs\.(any|all)\(\|(\w+)\| (!?)(tlvs|further_tlvs)\.contains\(\5\)\) \{ return Err\(\(\)\);? \} ' + tail_re)
     mr = re.fullmatch(rest_re, cb)
-    if not mr: raise TranslateError("check_merge: the custom-TLV part changed: %r" % cb[:200])
-    v1, p1, v2, p2, lhs, cmpop, rhs, keep1, keep2 = mr.groups()
-    if lhs == rhs: raise TranslateError("check_merge compares %s with itself" % lhs)
+    mrb = None if mr else re.fullmatch(rest_re_b, cb)
+    if not mr and not mrb: raise TranslateError("check_merge: the custom-TLV part changed: %r" % cb[:200])
+    if mr:
+        v1, p1, v2, p2, lhs, cmpop, rhs, keep1, keep2 = mr.groups()
+        if lhs == rhs: raise TranslateError("check_merge compares %s with itself" % lhs)
+    else:
+        src_b, v1, p1, quant_b, _tv, neg_b, other_b, keep1, keep2 = mrb.groups()
+        if src_b == other_b: raise TranslateError("check_merge tests %s against itself" % src_b)
+        v2, p2, cmpop = v1, p1, '%s(|tlv| %s%s.contains(tlv)) over the even TLVs of %s' % (quant_b, neg_b, other_b, src_b)
     def tlv_pred(v, body_):
         body_ = body_.replace('*' + v, v)
         check_vars(body_, {v}, 'check_merge even-TLV predicate')
@@ -360,10 +373,15 @@ def main(out_path):
           'def checkMergeErr (self further_htlc_fields : OnionG) : Bool :=']
     for t in tests: L.append('  if %s then true else' % eme.e(parse_expr(t)))
     L += ['  let tlvs := self.custom_tlvs',
-          '  let further_tlvs := further_htlc_fields.custom_tlvs',
-          '  let even_tlvs := List.filter %s tlvs' % tlv_pred(v1, p1),
-          '  let further_even_tlvs := List.filter %s further_tlvs' % tlv_pred(v2, p2),
-          '  decide (%s %s %s)' % (lhs, '≠' if cmpop == 'ne' else '=', rhs), '',
+          '  let further_tlvs := further_htlc_fields.custom_tlvs']
+    if mr:
+        L += ['  let even_tlvs := List.filter %s tlvs' % tlv_pred(v1, p1),
+              '  let further_even_tlvs := List.filter %s further_tlvs' % tlv_pred(v2, p2),
+              '  decide (%s %s %s)' % (lhs, '≠' if cmpop == 'ne' else '=', rhs), '']
+    else:
+        L += ['  let even_tlvs := List.filter %s %s' % (tlv_pred(v1, p1), src_b),
+              '  List.%s even_tlvs (fun (tlv : Nat × Nat) => %s(List.contains %s tlv))' % (quant_b, '!' if neg_b else '', other_b), '']
+    L += [
           '/-- handle_claimable_htlc up to the verdict, in source order: pending-claim gate, purpose test (against the entry the FIRST',
           '    part created), then check_incoming_mpp_part = check_merge + the amount decisions; `Err(())` = .reject (the new HTLC is failed back) -/',
           'def handleClaimable (pending_claiming_contains : Bool) (purpose entry_purpose : Nat) (entry_fields onion_fields : OnionG)',
